@@ -128,6 +128,9 @@ impl Subject for WasmDiff {
     fn interesting(&self, op: &Blk, obs: &str) -> bool {
         self.inner.interesting(op, obs)
     }
+    fn deviation(&self, op: &Blk) -> u32 {
+        self.inner.deviation(op)
+    }
 
     fn step(&self, w: &mut World, op: &Blk) -> Result<String, Violation> {
         let u = &self.inner.u;
@@ -140,8 +143,14 @@ impl Subject for WasmDiff {
             1 => u.c2,
             _ => u.c1,
         };
-        let native: Exec = Executor::native(db.clone(), MockRelayer::new(u), exec_config());
-        let wasm: Exec = Executor::wasm(w.db(), MockRelayer::new(u), exec_config());
+        // deviation letters: the relayer fails to read the events of DA height `rfail`
+        let relayer = || {
+            let mut r = MockRelayer::new(u);
+            r.fail_at = op.rfail as u64;
+            r
+        };
+        let native: Exec = Executor::native(db.clone(), relayer(), exec_config());
+        let wasm: Exec = Executor::wasm(w.db(), relayer(), exec_config());
 
         // production
         let rn = produce(u, &native, header, txs.clone(), op.gp, cb, op.src);
@@ -302,7 +311,14 @@ fn c07(cli: &Cli) {
     let mk = |name: &str, u: Universe, l: Vec<Blk>| WasmDiff { inner: ExecSubject::new(name, u, Prop::C01, l), facts: Mutex::new(BTreeMap::new()) };
     // every template alone (and, thorough, every ordered pair) in one block
     let wide = letters(&lists(&all, if thorough { 2 } else { 1 }), &if thorough { vec![(1, 1, 0), (0, 0, 2), (1, 2, 3)] } else { vec![(1, 1, 0), (0, 0, 2)] }, SRC_ONCE);
-    plans.push((mk("wide: every template, both strategies", u.clone(), wide), 1));
+    let mut wide = wide;
+    for fail in 1..=3u8 {
+        for da in 1..=3u8 {
+            wide.push(Blk { txs: vec![], gp: 0, cb: 0, da, src: SRC_ONCE, bulk: 0, rfail: fail });
+            wide.push(Blk { txs: vec![u.tid("xfer")], gp: 1, cb: 1, da, src: SRC_ONCE, bulk: 0, rfail: fail });
+        }
+    }
+    plans.push((mk("wide: every template and relayer read failures, both strategies", u.clone(), wide), 1));
     // histories over a core set
     let core = t(&["xfer", "dep", "call_ok", "call_rvrt", "call_tro", "create", "call_c3", "msgdata_rvrt", "msg_relayed", "call_smo", "create_empty", "read_empty", "slot_empty_a", "slot_empty_b"]);
     let deep = letters(&lists(&core, 1), &[(1, 1, 1), (0, 0, 0)], SRC_ONCE);
@@ -338,7 +354,7 @@ fn c07(cli: &Cli) {
         run.add(r);
     }
     let violated = run.reports.iter().any(|r| !r.violations.is_empty());
-    for f in ["dry-run-ok", "dry-run-err", "crafted-bad-mint:rejected-by-both", "crafted-dup-tx:rejected-by-both", "status:failed", "skip:TransactionValidity.CoinDoesNotExist", "skip:GasOverflow", "produce-err"] {
+    for f in ["dry-run-ok", "dry-run-err", "crafted-bad-mint:rejected-by-both", "crafted-dup-tx:rejected-by-both", "status:failed", "skip:TransactionValidity.CoinDoesNotExist", "skip:GasOverflow", "produce-err:RelayerError", "produce-err"] {
         if !facts.keys().any(|k| k.starts_with(f)) && !violated {
             machinery_failure(&format!("vacuous run: fact `{f}` never observed"));
         }
